@@ -93,6 +93,7 @@ fn main() {
             if prelude_first { text.push_str(PRELUDE); }
             let mut probes: Vec<(usize, String, String, String)> = vec![]; // offset, name, role (binder / spread_binder / fun), expected type
             let mut prev = String::new();
+            let mut gtoks: Vec<(usize, String, String)> = vec![];   // generator tokens of the generated part: offset, text, role
             for &fi in &order {
                 for t in &funs[fi] {
                     let s = t["t"].as_str().unwrap();
@@ -102,6 +103,7 @@ fn main() {
                         let role = if prev == ".." { "spread_binder" } else { t["r"].as_str().unwrap() };
                         probes.push((text.len(), s.to_string(), role.to_string(), t["ty"].as_str().unwrap().to_string()));
                     }
+                    gtoks.push((text.len(), s.to_string(), t["r"].as_str().unwrap().to_string()));
                     text.push_str(s);
                     prev = s.to_string();
                 }
@@ -116,6 +118,29 @@ fn main() {
                 let diags = a.diagnostics(FileId(0)).unwrap();
                 if !diags.is_empty() {
                     return Some(json!({"what": "diagnostics on a generated program", "diag": format!("{:?}", diags[0]).chars().take(200).collect::<String>()}));
+                }
+                // C19: function references, constructors and function-typed locals are highlighted, nothing else
+                {
+                    let hl = a.syntax_highlight(FileId(0), None).unwrap();
+                    let binder_ty: std::collections::HashMap<&str, &str> = probes.iter().filter(|p| p.2 != "fun").map(|p| (p.1.as_str(), p.3.as_str())).collect();
+                    for (k, (off, s, r)) in gtoks.iter().enumerate() {
+                        let first = s.chars().next().unwrap_or(' ');
+                        if !(first.is_ascii_alphabetic()) || r == "type" { continue; }
+                        let prev = if k > 0 { gtoks[k - 1].1.as_str() } else { "" };
+                        let next = gtoks.get(k + 1).map(|t| t.1.as_str()).unwrap_or("");
+                        let is_def = r == "binder" || r == "fun";
+                        let is_label = next == ":" && (prev == "(" || prev == ",") && !is_def;
+                        let is_field = prev == ".";
+                        let exp: Option<&str> = if is_def || is_label || is_field { None }
+                            else if ["id", "apply", "map", "add", "mk_ok", "mk_err"].contains(&s.as_str()) || (s.len() > 1 && s.starts_with('g') && s[1..].chars().all(|c| c.is_ascii_digit())) { Some("Function") }
+                            else if s == "T" || s == "Box" { Some("Constructor") }
+                            else if let Some(ty) = binder_ty.get(s.as_str()) { if ty.starts_with("fn(") { Some("Function") } else { None } }
+                            else { None };
+                        let got = hl.iter().find(|h| usize::from(h.range.start()) == *off && usize::from(h.range.end()) == off + s.len()).map(|h| format!("{:?}", h.tag));
+                        if exp.map(|x| x.to_string()) != got {
+                            return Some(json!({"what": "highlight", "token": s, "expected": exp, "got": got, "offset": off}));
+                        }
+                    }
                 }
                 for (off, name, role, exp) in &probes {
                     nprobe += 1;
@@ -136,7 +161,8 @@ fn main() {
                 // coarse shape of expected / got for grouping
                 let shape = |s: &str| -> String { s.chars().filter(|c| !c.is_ascii_digit()).collect::<String>() };
                 let got_has_var = b["got"].as_str().map(|g| alpha(g).contains('\'')).unwrap_or(false);
-                local.push(json!({"kind": "mismatch", "prop": "C09", "features": {"what": b["what"], "role": b["role"], "got_has_var": got_has_var,
+                let prop = if b["what"] == "highlight" { "C19" } else { "C09" };
+                local.push(json!({"kind": "mismatch", "prop": prop, "features": {"what": b["what"], "role": b["role"], "got_has_var": got_has_var,
                     "no_hover": b["got"] == "<no hover>",
                     "expected": b["expected"].as_str().map(shape), "got": b["got"].as_str().map(shape)},
                     "detail": {"case": c, "text": text, "bad": b}}));
